@@ -597,7 +597,10 @@ func init() {
 		})
 		// scalar on the left/right/both, operands that are aggregations / topk / nested binaries
 		runCases(c, "C05", func(emit func(*core.Case)) {
-			operands := []string{"a", "b", "sum by (l) (a)", "max without (m) (a)", "topk by (l) (1, a)", "bottomk(2, a)", "a + on (l) group_left b", "a > 2", "-a", "2", "time()", `scalar(b{l="0"})`}
+			// "nope" has no series at all; `a + on (l) b` is ambiguous over D1 (an error that
+			// has to surface whatever the other operand holds)
+			operands := []string{"a", "b", "sum by (l) (a)", "max without (m) (a)", "topk by (l) (1, a)", "bottomk(2, a)", "a + on (l) group_left b", "a > 2", "-a", "2", "time()", `scalar(b{l="0"})`,
+				"nope", "a + on (l) b"}
 			for _, ds := range []string{"D1", "D2", "D3"} {
 				data := dataset(ds)
 				for _, wv := range []core.Window{core.Range(10000, 30000, 12), core.Instant(45000)} {
